@@ -124,8 +124,10 @@ def generate_mesh(vertices, edges, cells, ne=4, **kwargs):
 
 def eid_from_vertex(earr, vbel):
     # ret = []
+    # the interface itself: sharing two vertices does not identify it (a cell with two neighbours has two
+    # interfaces between the same pair of junctions)
     for j in range(0, len(earr)):
-        if len(list(set(earr[j]) & set(vbel))) >= 2:
+        if list(earr[j]) == list(vbel):
             return j
     raise BigEdgesBadlyCreated()
 
